@@ -112,7 +112,7 @@ func (c *c08ctx) ruleToValue() {
 						continue
 					}
 					n++
-					lo, hi, _, ok := e.IndexRange(wr.idx)
+					lo, hi, _, ok := e.AffineRange(wr.idx)
 					if !ok || lo.String() != "0" || hi.String() != "len("+A+")" {
 						msgs = append(msgs, "positions written are not exactly 0..len-1")
 					}
